@@ -67,7 +67,7 @@ def ess(ctx, A, be, ackey):
     AC = lambda ci: T.app(ackey, T.app('index_axis', smp, AX(0), ci))
     R = mk_comp(m, c, AC(c))
     k2 = S('k#v')
-    Rv = mk_comp(T.app('len', R), k2, index_term(R, k2))
+    Rv = mk_comp(seq_len(R), k2, index_term(R, k2))
     avg = T.app('mean_axis', T.app('stack', AX(0), Rv), AX(0))
     bshape = T.tup(h, p)
     rho = T.add(T.neg(T.div(T.add(T.neg(avg), T.app('broadcast', W, bshape)), T.app('broadcast', V, bshape))), T.ONE)
